@@ -23,6 +23,19 @@ CHECKS = {
               "TestNode objects (proof of the aliasing pattern is part of C09)."),
         note=COMMON_NOTE + "The model snapshots variant_nodes[v0] during insert (equal to the live iteration unless a name repeats its own first variant, which the property excludes).",
         design="§5 C16"),
+    "C12": dict(
+        engine="corr-pure",
+        technique="Coq proof (case analysis for the policy table; refinement of the call-level model to a set-of-names specification by induction over the object list and over operation sequences; frame and call-addressing invariants) + model/implementation correspondence by vm_compute (exhaustive single-object product + random sequences)",
+        text=("Theorems over Model/StateOps.v (call-level transcription of check/get/set/unset/push/pop_states) and Model/StateSpec.v "
+              "(set-of-names store driven by the README policy table): the three if/elif chains equal the table for all 2x25 inputs; for every "
+              "operation, object list (any number of vms/images) and store the model's store and result are those of the specification, and so "
+              "for every operation sequence; an abort or invalid policy leaves the store unchanged unless the object's check_mode forces the root "
+              "(then exactly the root of that object is (re)created first - formalisation note in DESIGN.md); entries of objects outside the call "
+              "never change; every backend call is about an addressed object (not a skipped type, not a readonly image, with an <op>_state). "
+              "The model is compared call by call (backend call log, result, final store) with the real functions through an in-memory backend "
+              "registered in BACKENDS, exhaustively over op x 25 modes x presence x root x keyword x type x check modes, plus random sequences."),
+        note=COMMON_NOTE + "Params.object_params is reached through the real call (library code); the in-memory backend's semantics (unset_root drops the object's states) is harness glue; mode strings are two letters over {a,r,i,f,x}.",
+        design="§5 C12"),
     "C18": dict(
         engine="corr-pure",
         technique="Coq proof (finite sweep lifted for the 33 prefix lengths, lia/nia for membership and translation, induction for allocation, invariant over build/reattach) + model/implementation correspondence by vm_compute",
